@@ -81,11 +81,11 @@ def rule_r3(ctx: Ctx) -> None:
     """The full decider's frontier disjunct, found in the filters that reach random.choice in the abstract interpretation
     of its chooser (helpers inlined, locals such as a hoisted budget resolved): the non-recursive disjunct with an equality
     must mean distance == max_depth - ctx.depth."""
-    from .depthrules import ChoiceOf, FiltV, OrList, _decider_paths
+    from .depthrules import ChoiceOf, FiltV, OrList, _decider_paths, chooser_instances
     from ..absint import Lin
     prog = ctx.prog
     n = 0
-    for f in prog.implementations(DECIDER, "choose_production_alternatives"):
+    for f in chooser_instances(prog):
         if not (f.cls and "Full" in f.cls.name):
             continue
         outs, (d, M, c) = _decider_paths(ctx, f)
@@ -126,7 +126,7 @@ def rule_r3(ctx: Ctx) -> None:
     if n == 0:
         # no equality disjunct found in comprehension filters (the chooser is spelled with loops): read the offset off the model
         from .choosermodel import full_offset
-        for f in prog.implementations(DECIDER, "choose_production_alternatives"):
+        for f in chooser_instances(prog):
             if not (f.cls and "Full" in f.cls.name):
                 continue
             off = full_offset(ctx, f)
